@@ -125,9 +125,9 @@ def newTypecast (t : TyId) (inner : Node) : Outcome (Option Node) :=
   match env.kind d with
   | .named =>
     let ti := env.ty d
-    if env.scopeHas ti.name then .ok (some (.cast inner t ti.name)) else
+    if ti.pkgPath.isNone || env.scopeHas ti.name then .ok (some (.cast inner t ti.name)) else
     match ti.pkgPath with
-    | none => .panic "NewTypecast: nil package"
+    | none => .ok (some (.cast inner t ti.name))
     | some p =>
       match env.importName p with
       | some n => .ok (some (.cast inner t (n ++ "." ++ ti.name)))
@@ -146,9 +146,7 @@ def castNode (lhsType : TyId) (rhs : Node) : Outcome (Option Node × List String
     match ctx.newTypecast lhsType rhs with
     | .ok (some c) => .ok (some c, [])
     | .ok none =>
-      match env.typeNameF lhsType with
-      | some tn => .ok (none, [s!"{ctx.methodPos}: typecast for {tn} is not implemented(yet) for {rhs.assignExpr env}"])
-      | none => .panic "TypeName: nil package"
+      .ok (none, [s!"{ctx.methodPos}: typecast for {env.typeNameF lhsType} is not implemented(yet) for {rhs.assignExpr env}"])
     | .error e => .error e
     | .panic s => .panic s
   else .ok (none, [])
@@ -213,16 +211,11 @@ def resolveTemplatedExpr (pattern : String) (args : List Node) : Option Node :=
         if rest.isEmpty then some node else ctx.walkPath rest node (node.exprType ctx.env)
 
 /-- the warning printed with every `NoMatchField` -/
-def noAssignmentWarn (pos : String) (lhs : Node) : Outcome String :=
-  match ctx.env.typeNameF (lhs.exprType ctx.env) with
-  | some tn => .ok s!"{pos}: no assignment for {lhs.assignExpr ctx.env} [{tn}]"
-  | none => .panic "TypeName: nil package"
+def noAssignmentWarn (pos : String) (lhs : Node) : String :=
+  s!"{pos}: no assignment for {lhs.assignExpr ctx.env} [{ctx.env.typeNameF (lhs.exprType ctx.env)}]"
 
 def noMatchAt (pos : String) (lhs : Node) (pre : List String) : Outcome Stmt :=
-  match ctx.noAssignmentWarn pos lhs with
-  | .ok w => .ok (.noMatch lhs (pre ++ [w]))
-  | .error e => .error e
-  | .panic s => .panic s
+  .ok (.noMatch lhs (pre ++ [ctx.noAssignmentWarn pos lhs]))
 
 /-- `createWithConverter` -/
 def createWithConverter (lhs rhs : Node) (c : FieldConverter) : Outcome Stmt := do
@@ -261,13 +254,9 @@ def sliceToSlice (lhs rhs : Node) : Outcome (Option Stmt) :=
   let re := env.sliceElem (rhs.exprType env)
   if env.assignable re le then
     if env.isBasicType re then .ok (some (.sliceCopy lhs rhs ("[]" ++ (env.ty le).str)))
-    else match env.typeNameF le with
-      | some tn => .ok (some (.sliceLoop lhs rhs ("[]" ++ tn)))
-      | none => .panic "TypeName: nil package"
+    else .ok (some (.sliceLoop lhs rhs ("[]" ++ env.typeNameF le)))
   else if ctx.opts.typecast && env.convertible re le then
-    match env.typeNameF le with
-    | some tn => .ok (some (.sliceCast lhs rhs ("[]" ++ tn) tn))
-    | none => .panic "TypeName: nil package"
+    .ok (some (.sliceCast lhs rhs ("[]" ++ env.typeNameF le) (env.typeNameF le)))
   else .ok none
 
 /-- state of the two candidate passes of `structFieldAndStructGettersAndFields` -/
@@ -295,11 +284,7 @@ def handler (rec : Node → Node → Outcome (List Stmt)) (lhs rhsStruct : Node)
     | some c => return { st with a := some (.simple lhs (.node c) c.returnsError (st.warns ++ w)), done := true }
     | none =>
       if env.isStructType lt && env.isStructType ct then
-        let initExpr ← (if env.isPtr lt then
-            match env.typeNameF lt with
-            | some tn => pure (lhs.assignExpr env ++ " = " ++ tn ++ "{}")
-            | none => Outcome.panic "TypeName: nil package"
-          else pure "")
+        let initExpr := if env.isPtr lt then lhs.assignExpr env ++ " = " ++ env.typeNameF lt ++ "{}" else ""
         let nullCheck := if cand.objNullable env then cand.nullCheckExpr env else ""
         let body ← rec lhs cand
         if body.isEmpty then
